@@ -262,6 +262,7 @@ func (e *Engine) verifyFunc(fn *ssa.Function, con *Contract) *VC {
 	st.next = vc.sc.fresh("next0", sortRef)
 	vc.sc.assert(sx(">", st.next, "0"))
 	next0 := st.next
+	vc.next0 = next0
 	var args []Val
 	for _, p := range fn.Params {
 		v, ok := vc.symbolic(p.Type(), "p."+p.Name())
@@ -382,8 +383,18 @@ func (e *Engine) verifyFunc(fn *ssa.Function, con *Contract) *VC {
 
 // frameObligations: objects that existed at entry are unchanged except as declared by modifies.
 func (vc *VC) frameObligations(fn *ssa.Function, con *Contract, args []Val, entry, out *State, next0 string) {
-	key := funcKey(fn)
 	pos := vc.eng.fset.Position(fn.Pos())
+	for _, g := range vc.frameGoals(fn, con, args, entry, out, next0) {
+		vc.oblige(out, "frame", g.name, g.desc, pos, g.goal)
+	}
+}
+
+type frameGoal struct{ name, desc, goal string }
+
+// frameGoals: the formulas stating that objects that existed at entry are unchanged in state out
+// except as declared by the modifies clauses (evaluated in the entry state).
+func (vc *VC) frameGoals(fn *ssa.Function, con *Contract, args []Val, entry, out *State, next0 string) (goals []frameGoal) {
+	key := funcKey(fn)
 	for _, m := range con.Modifies {
 		if m == "*" {
 			return
@@ -400,14 +411,14 @@ func (vc *VC) frameObligations(fn *ssa.Function, con *Contract, args []Val, entr
 				if h0 == h1 {
 					continue
 				}
-				vc.oblige(out, "frame", key+"#frame:"+k, "frame: pre-existing objects of "+k+" unchanged", pos,
-					fmt.Sprintf("(forall ((r!q Int)) (=> (< r!q %s) (= (select %s r!q) (select %s r!q))))", next0, h1, h0))
+				goals = append(goals, frameGoal{key + "#frame:" + k, "frame: pre-existing objects of " + k + " unchanged",
+					fmt.Sprintf("(forall ((r!q Int)) (=> (< r!q %s) (= (select %s r!q) (select %s r!q))))", next0, h1, h0)})
 			}
 			return
 		}
 	}
 	if out.epoch != entry.epoch {
-		vc.oblige(out, "frame", key+"#frame.unknown-effects", "function calls code with unknown effects but declares a frame", pos, "false")
+		goals = append(goals, frameGoal{key + "#frame.unknown-effects", "function calls code with unknown effects but declares a frame", "false"})
 		return
 	}
 	env := vc.contractEnv(fn, args, entry, entry, nil)
@@ -465,6 +476,11 @@ func (vc *VC) frameObligations(fn *ssa.Function, con *Contract, args []Val, entr
 							excs[hn] = append(excs[hn], exc{ref: v.L.Ref})
 						}
 					}
+				} else if f == "*" {
+					for _, lf := range leavesOf(t) {
+						hn := fieldHeap(t, lf.path)
+						excs[hn] = append(excs[hn], exc{ref: v.L.Ref})
+					}
 				}
 			}
 		}
@@ -508,8 +524,9 @@ func (vc *VC) frameObligations(fn *ssa.Function, con *Contract, args []Val, entr
 					i, sortIdx, x.lo, i, i, x.hi, h1, x.ref, i, h0, x.ref, i))
 			}
 		}
-		vc.oblige(out, "frame", key+"#frame:"+n, "frame: "+n+" unchanged for pre-existing objects", pos, and(append([]string{goal}, extra...)...))
+		goals = append(goals, frameGoal{key + "#frame:" + n, "frame: " + n + " unchanged for pre-existing objects", and(append([]string{goal}, extra...)...)})
 	}
+	return
 }
 
 // findGlobalTables: package-level array/slice variables of the module that are initialised by a
